@@ -3,4 +3,4 @@
 export GOFLAGS=-mod=mod GOPROXY=off GOSUMDB=off GOTOOLCHAIN=local
 S=/var/tmp/verif-scratch/${VERIF_DEV:-dev}
 [ -d $S/gluon ] || /verif/sim/prepare.sh $S
-rsync -a --delete --exclude go.sum /verif/sim/harness/ $S/harness/ && cd $S/harness && { [ -f go.sum ] || cp /repo/go.sum .; } && go1.26.8 "$@"
+rsync -a --delete --delete-excluded --exclude go.sum $( [ -z "${VERIF_DEV_ALL:-}" ] && echo --exclude-from=/verif/sim/harness/.wip ) /verif/sim/harness/ $S/harness/ && cd $S/harness && { [ -f go.sum ] || cp /repo/go.sum .; } && go1.26.8 "$@"
